@@ -594,7 +594,7 @@ theorem leaf_year_10000 (b : Bool) : leafJO b (.time 253402300800 0) = none := b
   simp [leafJO, goYear_10000]
 theorem leaf_year_neg_struct : leafJO false (.time (-62167219201) 0) = none := by
   simp [leafJO, goYear_neg]
-theorem leaf_year_neg_map : leafJO true (.time (-62167219201) 0) = some .tim := by
+theorem leaf_year_neg_map : leafJO true (.time (-62167219201) 0) = some (.tim 0 0) := by
   simp [leafJO, goYear_neg]
 
 end Rscp.Lemmas.JsonOut
